@@ -176,14 +176,33 @@ func (m *Machine) enabled(t *Thread) bool {
 	return t.completed >= 0 || t.pred()
 }
 
+// others returns the enabled threads other than self in round-robin order after self.
 func (m *Machine) others(self *Thread) []*Thread {
 	var out []*Thread
-	for _, t := range m.threads {
+	n := len(m.threads)
+	for i := 1; i <= n; i++ {
+		t := m.threads[(self.id+i)%n]
 		if t != self && m.enabled(t) {
 			out = append(out, t)
 		}
 	}
 	return out
+}
+
+// pickNext chooses the thread to run next among cands (round-robin order). With delay-bounded
+// scheduling (default) taking the j-th candidate costs j units of the remaining budget; with
+// free scheduling every candidate may be chosen at a blocking point.
+func (m *Machine) pickNext(cands []*Thread) *Thread {
+	if m.eng.cfg.FreeSched {
+		return cands[m.choose(len(cands), "sched")]
+	}
+	n := len(cands)
+	if n > m.preemptLeft+1 {
+		n = m.preemptLeft + 1
+	}
+	k := m.choose(n, "sched")
+	m.preemptLeft -= k
+	return cands[k]
 }
 
 // switchTo passes the baton from the current thread to t and waits to be resumed.
@@ -213,8 +232,7 @@ func (m *Machine) scheduleAway(self *Thread) {
 		m.finishPath(PathOutcome{pa.kind, pa.msg})
 		return
 	}
-	k := m.choose(len(cands), "sched")
-	m.switchTo(self, cands[k])
+	m.switchTo(self, m.pickNext(cands))
 }
 
 // noteLiveness records a deadlock (or fatal runtime error) as a violation of the implicit
@@ -254,8 +272,7 @@ func (m *Machine) park(pred func() bool) {
 			self.pred = nil
 			panic(pathAbort{"deadlock", m.describeBlocked()})
 		}
-		k := m.choose(len(cands), "sched")
-		m.switchTo(self, cands[k])
+		m.switchTo(self, m.pickNext(cands))
 		if m.enabled(self) {
 			break
 		}
@@ -273,11 +290,24 @@ func (m *Machine) visible(what string) {
 	if len(cands) == 0 {
 		return
 	}
-	k := m.choose(len(cands)+1, "preempt")
+	if m.eng.cfg.FreeSched {
+		k := m.choose(len(cands)+1, "preempt")
+		if k == 0 {
+			return
+		}
+		m.preemptLeft--
+		m.switchTo(self, cands[k-1])
+		return
+	}
+	n := len(cands)
+	if n > m.preemptLeft {
+		n = m.preemptLeft
+	}
+	k := m.choose(n+1, "preempt")
 	if k == 0 {
 		return
 	}
-	m.preemptLeft--
+	m.preemptLeft -= k
 	m.switchTo(self, cands[k-1])
 }
 
